@@ -203,7 +203,9 @@ func propC07(r *kernel.Run) {
 				r.HarnessErr("token: %v", err)
 			}
 			dopts = append(dopts, nodeenrollment.WithActivationToken(tok))
-			nopts = dopts
+			if tp.Draw(2) == 0 {
+				nopts = dopts // token known when the credentials are created; otherwise only handed to Dial
+			}
 		case "wrapper":
 			rw := newAead(r, "registration")
 			srv.RW = rw
